@@ -42,4 +42,45 @@ theorem tryRandomLoop_eq (s : State) (cells : List Cid) (hne : cells ≠ []) (dr
       simp only [he', Bool.false_eq_true, if_false]
       exact ih
 
+/-- `remove()` of an agent that some cell lists, after any history: it returns, every cell's list is the old one without
+    the agent, the registry is the old one without the agent -/
+theorem remove_listed {sp : Space} {s : State} (hi : Inv sp s) {a : Aid} {c : Cid} (hm : a ∈ s.occ c) :
+    (step sp s (.remove a)).2 = .ok ∧ (∀ c', (step sp s (.remove a)).1.occ c' = (s.occ c').erase a) ∧
+    (step sp s (.remove a)).1.registry = s.registry.erase a := by
+  have hc := hi.mem_cell a c hm
+  have hlt := hi.known a c hc
+  obtain ⟨k, hk⟩ : ∃ k, s.kinds[a]? = some k := ⟨s.kinds[a], by simp [hlt]⟩
+  have hother : ∀ c', c' ≠ c → (s.occ c').erase a = s.occ c' := by
+    intro c' hne
+    apply List.erase_of_not_mem
+    intro hmem
+    have := hi.mem_cell a c' hmem
+    rw [hc] at this
+    exact hne (by simpa using this.symm)
+  by_cases hfix : k = .fixed
+  · subst hfix
+    have hm' : a ∈ ({ s with registry := s.registry.erase a } : State).occ c := hm
+    simp only [step, hk, hc, removeAgent_mem hm']
+    refine ⟨by trivial, fun c' => ?_, by trivial⟩
+    by_cases hcc : c' = c
+    · subst hcc; simp [upd_same]
+    · simp only [upd_other _ _ _ hcc]; exact (hother c' hcc).symm
+  · have hd := inv_deregister hi a
+    have hmob : ∀ o, ({ s with registry := s.registry.erase a } : State).cellOf a = some o →
+        a ∈ ({ s with registry := s.registry.erase a } : State).occ o := by
+      intro o ho
+      have : o = c := by
+        have h1 : s.cellOf a = some o := ho
+        rw [hc] at h1; simpa using h1.symm
+      subst this; exact hm
+    have hstep : step sp s (.remove a) = setCellMobile sp { s with registry := s.registry.erase a } a none := by
+      simp only [step, hk] <;> (cases k <;> first | rfl | simp_all)
+    rw [hstep, setCellMobile_eq hd hmob]
+    have hc' : ({ s with registry := s.registry.erase a } : State).cellOf a = some c := hc
+    simp only [hc]
+    refine ⟨by trivial, fun c' => ?_, by trivial⟩
+    by_cases hcc : c' = c
+    · subst hcc; simp [unplace, upd_same]
+    · simp only [unplace, upd_other _ _ _ hcc]; exact (hother c' hcc).symm
+
 end Mesa.Cells
